@@ -1,5 +1,6 @@
 import HbsModel.Registry
 import HbsModel.Lemmas.RM
+import HbsModel.Props.C02
 /-
   C14  Name resolution: helper before field, explicit paths always data, hooks last.
 -/
@@ -113,5 +114,37 @@ theorem decorator_effects_are_sequential (reg : Registry) (root : Json) (fuel : 
         renderElems reg root fuel tn es (m.drop 1)) := by
   simp only [renderElems]
   rfl
+
+/-! ### explicit path spellings always read the data – at source level -/
+
+/-- **`{{this.v}}`, `{{this/v}}`, `{{./v}}` read the field `v` of the data even when a helper called `v` is registered**
+    (only a helper registered under the whole spelling, e.g. the name "this.v", would be consulted): from the source text,
+    between any two texts, for every value and every escape function.  With `{{v}}` itself the helper would win
+    (`helper_before_field`). -/
+theorem explicit_spelling_reads_data (r : Registry) (fs : FS) (s0 s1 : Str) (sp : C02.Spelling) (data j : Json) (hdev : r.dev = false)
+    (hsp : sp = .thisDot ∨ sp = .thisSlash ∨ sp = .dotSlash)
+    (hok : C02.TextsOk s0 [(sp, s1)])
+    (hnohelper : assocGet r.helpers sp.raw = none)
+    (hsafe : Spec.indexSafe data [['v']] = true) (hj : Spec.descend data [['v']] = some j) :
+    r.renderTemplate fs (C02.textsAndTags s0 [(sp, s1)]) data = .ok (s0 ++ (r.escape j.render ++ s1)) := by
+  have h := C02.texts_and_tags_render r fs s0 [(sp, s1)] data j hdev hok (by simp [renderFuel])
+    (by intro q hq; simp at hq; subst hq; exact hnohelper) hsafe hj
+  rw [h]
+  rcases hsp with rfl | rfl | rfl <;> simp [C02.Spelling.output]
+
+/-- the hypothesis speaks about the spelled name only: a registry that HAS a helper `v` satisfies it -/
+example (k : HelperKind) : assocGet [((['v'] : Str), k)] C02.Spelling.thisDot.raw = none := by
+  simp [assocGet, C02.Spelling.raw]
+
+/-- all spellings of the path agree with `{{v}}` (when no helper shadows it) -/
+theorem spellings_agree (r : Registry) (fs : FS) (s0 s1 : Str) (sp : C02.Spelling) (data j : Json) (hdev : r.dev = false)
+    (hsp : sp ≠ .triple ∧ sp ≠ .amp)
+    (hok : C02.TextsOk s0 [(sp, s1)]) (hok' : C02.TextsOk s0 [(.dbl, s1)])
+    (hnohelper : assocGet r.helpers sp.raw = none) (hnov : assocGet r.helpers ['v'] = none)
+    (hsafe : Spec.indexSafe data [['v']] = true) (hj : Spec.descend data [['v']] = some j) :
+    r.renderTemplate fs (C02.textsAndTags s0 [(sp, s1)]) data = r.renderTemplate fs (C02.textsAndTags s0 [(.dbl, s1)]) data := by
+  rw [C02.texts_and_tags_render r fs s0 [(sp, s1)] data j hdev hok (by simp [renderFuel]) (by intro q hq; simp at hq; subst hq; exact hnohelper) hsafe hj,
+    C02.texts_and_tags_render r fs s0 [(.dbl, s1)] data j hdev hok' (by simp [renderFuel]) (by intro q hq; simp at hq; subst hq; exact hnov) hsafe hj]
+  cases sp <;> simp_all [C02.Spelling.output]
 
 end Hbs.C14
